@@ -812,7 +812,29 @@ func restScens() []restScen {
 	sh := shape{Hash: 0, Digits: 6, Q: true, QF: 1}
 	og := rreq{Method: "POST", Path: "/ocra/generate", Fields: map[string]any{"secret": u, "raw_suite": "OCRA-1:HOTP-SHA1-6:QN08", "input": ocraInputFor(sh, 2)}}
 	og2 := rreq{Method: "POST", Path: "/ocra/generate", Fields: map[string]any{"secret": u, "suite": structuredSuite(longShape()), "input": ocraInputFor(longShape(), 4)}}
-	return []restScen{{"hotp-generate||totp-validate", [][]rreq{{hg}, {tv}}}, {"ocra-generate||ocra-generate", [][]rreq{{og}, {og2}}}}
+	// two requests to the SAME endpoint that differ in every parameter (anything one handler instance shares between
+	// its in-flight requests - a parameter struct, a response object, a scratch buffer - shows under overlap)
+	post := func(path string, f map[string]any) rreq { return rreq{Method: "POST", Path: path, Fields: f} }
+	u2 := ref.B32Encode([]byte("another-rest-key-0123456789"))
+	k2 := []byte("another-rest-key-0123456789")
+	hv1 := post("/hotp/validate", map[string]any{"secret": u, "counter": 5, "digits": "8", "algorithm": "SHA512", "skew": 10, "code": ref.HOTP(restKey, 15, 8, 2)})
+	hv2 := post("/hotp/validate", map[string]any{"secret": u2, "counter": 7, "code": ref.HOTP(k2, 8, 6, 0)}) // skew omitted: distance 1 => false
+	tv1 := post("/totp/validate", map[string]any{"secret": u, "timestamp": 1111111109, "period": 60, "digits": "10", "algorithm": "SHA256", "skew": 9, "code": ref.HOTP(restKey, ref.Step(1111111109, 60)+9, 10, 1)})
+	tv2 := post("/totp/validate", map[string]any{"secret": u2, "timestamp": 59, "code": ref.HOTP(k2, 2, 6, 0)}) // skew omitted, neighbouring step => false
+	hg2 := post("/hotp/generate", map[string]any{"secret": u2, "counter": 1})
+	tg1 := post("/totp/generate", map[string]any{"secret": u, "timestamp": 1111111109, "period": 60, "digits": "10", "algorithm": "SHA512"})
+	tg2 := post("/totp/generate", map[string]any{"secret": u2, "timestamp": 59})
+	ov1 := post("/ocra/validate", map[string]any{"secret": u, "raw_suite": "OCRA-1:HOTP-SHA1-6:QN08", "input": ocraInputFor(sh, 2), "code": ref.OCRA(restKey, sh.ref(), admissible(sh, 2).ref())})
+	ov2 := post("/ocra/validate", map[string]any{"secret": u2, "suite": structuredSuite(longShape()), "input": ocraInputFor(longShape(), 4), "code": ref.OCRA(k2, longShape().ref(), admissible(longShape(), 4).ref())})
+	os1 := post("/ocra/suite", map[string]any{"raw_suite": "OCRA-1:HOTP-SHA512-8:C-QH10-PSHA512-S-T1"})
+	os2 := post("/ocra/suite", map[string]any{"raw_suite": "OCRA-1:HOTP-SHA1-6:QN08"})
+	ou1 := post("/otp/url", map[string]any{"type": "totp", "secret": u, "issuer": "My Company", "account_name": "alice@example.com", "period": 60, "digits": "8", "algorithm": "SHA256"})
+	ou2 := post("/otp/url", map[string]any{"type": "hotp", "secret": u2, "issuer": "I", "account_name": "b"})
+	return []restScen{{"hotp-generate||totp-validate", [][]rreq{{hg}, {tv}}}, {"ocra-generate||ocra-generate", [][]rreq{{og}, {og2}}},
+		{"hotp-validate||hotp-validate", [][]rreq{{hv1}, {hv2}}}, {"totp-validate||totp-validate", [][]rreq{{tv1}, {tv2}}},
+		{"hotp-generate||hotp-generate", [][]rreq{{hg}, {hg2}}}, {"totp-generate||totp-generate", [][]rreq{{tg1}, {tg2}}},
+		{"ocra-validate||ocra-validate", [][]rreq{{ov1}, {ov2}}}, {"ocra-suite||ocra-suite", [][]rreq{{os1}, {os2}}}, {"otp-url||otp-url", [][]rreq{{ou1}, {ou2}}},
+		{"totp-validate||totp-generate||hotp-validate", [][]rreq{{tv1}, {tg2}, {hv2}}}}
 }
 
 func runRestSchedule(sc restScen, x *xplore.X) (obs, bad string) {
